@@ -83,8 +83,21 @@ pub fn run(args: &[String]) {
         let je = guarded(|| serde_json::to_string(&e).unwrap()).unwrap_or_else(|_| "<panic>".into());
         let dv = match guarded(|| serde_json::from_str::<ChemicalCompositionVec>(&jv)) { Ok(Ok(c)) => json!({"ok": canon(c.iter().map(|(k, v)| (k, v)))}), Ok(Err(_)) => json!({"err": 9}), Err(_) => json!("panic") };
         let dm = match guarded(|| serde_json::from_str::<ChemicalCompositionMap>(&jm)) { Ok(Ok(c)) => json!({"ok": canon(c.iter())}), Ok(Err(_)) => json!({"err": 9}), Err(_) => json!("panic") };
+        // "parses back to an EQUAL composition": the crate's own `==`, against an original whose mass cache is populated (equality is
+        // about keys and counts, not about what happens to be cached); null where the text does not parse
+        let eqs: Vec<Value> = {
+            let (mut v2, mut m2, mut e2) = (v.clone(), m.clone(), e.clone());
+            let mut em2 = e.clone().into_map();
+            let _ = guarded(|| { v2.fmass(); m2.fmass(); e2.fmass(); em2.fmass(); });
+            let b = |r: Result<bool, ()>| match r { Ok(x) => json!(x), Err(_) => Value::Null };
+            vec![b(text.parse::<ChemicalCompositionVec>().map(|c| c == v2 && v2 == c).map_err(|_| ())),
+                 b(text.parse::<ChemicalCompositionMap>().map(|c| c == m2 && m2 == c).map_err(|_| ())),
+                 b(text.parse::<ChemicalComposition>().map(|c| c == e2 && e2 == c && c == em2 && em2 == c).map_err(|_| ())),
+                 b(serde_json::from_str::<ChemicalCompositionVec>(&jv).map(|c| c == v2).map_err(|_| ())),
+                 b(serde_json::from_str::<ChemicalCompositionMap>(&jm).map(|c| c == m2).map_err(|_| ()))]
+        };
         let mut sorted = ents.clone();
         sorted.sort();
-        println!("{}", json!({"id": id, "ents": sorted, "texts": texts, "back": back, "json": [jv, jm, je], "de": [dv, dm], "orders": orders.len()}));
+        println!("{}", json!({"id": id, "ents": sorted, "texts": texts, "back": back, "json": [jv, jm, je], "de": [dv, dm], "orders": orders.len(), "eq": eqs}));
     }
 }
